@@ -364,6 +364,18 @@ def step (st : DState) (line : String) : DState × String :=
         | .ok (w', u) => ({ st with w := w' }, s!"ok V{u}")
       | _, _ => bad
     | _, _ => bad
+  | ["plain", u, "num", sort] =>
+    -- ONE callable serves as render function and as sort key; it returns numbers (0, 5, 10, 15, …: their text order
+    -- differs from their numeric order), rendered with str()
+    match parseId 'V' u with
+    | some u =>
+      if !(w.isUni u) then bad else
+      let f : Option VId → Nat := fun x => codeOf x * 5
+      match R.basicRenderS w filterTable u (fun x => toString (f x)) (if sort == "-" then none else some f) with
+      | (w', .error e) => ({ st with w := w' }, errLine e)
+      | (w', .ok none) => ({ st with w := w' }, "ok none")
+      | (w', .ok (some str)) => ({ st with w := w' }, "ok " ++ str.replace "\n" "|")
+    | none => bad
   | ["plain", u, rf, sort] =>
     match parseId 'V' u, parseOptNat sort with
     | some u, some sort =>
